@@ -97,4 +97,17 @@ PROPS = {
         status="full for ploidy 2; ploidy 1: proved below the call's local genotype count, the fill cells are the known finding F5",
         assumptions=["cyvcf2 reports PL as an int32 array with INT_MIN for missing and INT_MIN+1 for vector end"],
     ),
+    "C04": dict(
+        units=["GenBins"],
+        props_files=["Props/C04.v"],
+        driver="c04",
+        rule="generated VCF/BCF (window-spanning and bin-exceeding records, duplicate positions, used/unused/skipped contigs, "
+        "BGZF blocks of 1..20 records or htslib's own) x {tbi, csi min_shift 9..20, bcf} x num_parts {1,2,3,5,10,50,1000} and "
+        "target sizes {1 byte .. file size}; the real regions and per-region records vs the property, vs check_C04 and vs "
+        "Model.Regions fed with the same offsets table; CSI bins permuted. distinct = distinct (file, configuration); "
+        "non-trivial = more than one record",
+        status="full under the monitored htslib contract (region query returns the overlapping records of the contig in file order; "
+        "loff_monotone / first_bin_low for CSI); the refine step is tied by correspondence, not by a theorem",
+        assumptions=["htslib's region query contract", "htslib-written CSI indexes satisfy loff_monotone (monitored on every generated index)"],
+    ),
 }
